@@ -138,7 +138,8 @@ def apply_op(S, op, prop='C03'):
     k = op[0]
     a = S.a
     touched = [op[1]] if k in ('setitem', 'getitem', 'delitem', 'contains', 'get', 'pop', 'setdefault') else \
-        list(op[1]) if k == 'popkeys' else [q for q, _ in op[1]] if k.startswith('update') else []
+        list(op[1]) if k == 'popkeys' else [q for q, _ in op[1]] if k.startswith('update') else \
+        [S.keys[1]] if k == 'mutate' else [S.keys[2]] if k == 'copyname' else []
     pres = [key_pre(S, q) for q in touched]
     pre = 'present' if 'present' in pres else ('alias-present' if 'alias-present' in pres else ('absent' if pres else '-'))
     nontrivial = pre != 'absent' and pre != '-'
